@@ -26,6 +26,11 @@ mod type_qualifiers;
 #[cfg(test)]
 mod tests;
 
+#[cfg(graphql_client_verif)]
+mod verif;
+#[cfg(graphql_client_verif)]
+pub use verif::verif_take_cache_events;
+
 pub use crate::codegen_options::{CodegenMode, GraphQLClientCodegenOptions};
 
 use std::{collections::BTreeMap, fmt::Display, io};
@@ -56,6 +61,8 @@ fn get_set_cached<T: Clone>(
     value_func: impl FnOnce() -> T,
 ) -> T {
     let mut lock = cache.lock().expect("cache is poisoned");
+    #[cfg(graphql_client_verif)]
+    let _verif_event = verif::CacheEventGuard::begin::<T>(key, lock.contains_key(key));
     lock.entry(key.into()).or_insert_with(value_func).clone()
 }
 
